@@ -13,8 +13,9 @@ import TinsModel.Wire.Chain.ParseLinkIp6
       (jumbograms);
     * ICMP / ICMPv6 with an RFC 4884 extension structure, or an error message whose quote is not ghost-free: known
       findings KF-C03-Icmp-3/4 (the re-serialization pads the quote to 128 bytes and derives the length field, which moves
-      where the re-parser looks for a structure); MLD / neighbour-discovery bodies the wire format cannot express
-      (`BodyWire`, `OptsWire` — for parsed packets these hold, but the family does not export the lemma).
+      where the re-parser looks for a structure); for ICMPv6 additionally the MLD / neighbour-discovery conditions of
+      `icmp6_reparse_plain` (`BodyWire`, `OptsWire`, an MLDv1 query without MLDv2 members) are kept as hypotheses — the
+      family does not export the lemma that parsing establishes them.
   Everything else is established by the constructors themselves: the invariants and serializability (`parsed_layers_good`),
   wire-normal IP options, canonical TCP options, aligned IPv6 extension headers, a representable AH ICV, and the link of
   every layer to its successor (`*_parse_linkA`) — IP fragments (payload kept as RawPDU) included.
@@ -37,7 +38,15 @@ def Residual (x : AnyObj) (r : List AnyObj) : Prop :=
   | .ip (.esp _) => True
   | .ip6 (.ip6 p) => p.hdr + sizeOfStack r - 40 < 65536          -- fits the 16-bit payload length
   | .tr _ => True
-  | .icmp _ => Side x r                                         -- no extension structure, ghost-free quote, …
+  | .icmp (.icmp p) => p.ext = Icmp.ExtS.default ∧               -- no extension structure; error messages: ghost-free quote
+      (Icmp.Icmp4.extAllowed p.type = true →
+        Icmp.ghostFree (p.lengthFor (Icmp.Icmp4.innerOf (sizeOfStack r)) % 256 * 4) (tailBytes r))
+  | .icmp (.icmp6 p) => p.ext = Icmp.ExtS.default ∧
+      (p.type = 130 → p.useMldv2 = false → p.mlqm = Icmp.Icmp6.zeros 2 ∧ p.sources = []) ∧
+      p.BodyWire (p.unBytes (Icmp.Icmp4.innerOf (sizeOfStack r))) (!(Icmp.Icmp6.optsBytes p.opts ++ tailBytes r).isEmpty) ∧
+      p.OptsWire (tailBytes r) ∧
+      (Icmp.Icmp6.extAllowed p.type = true →
+        Icmp.ghostFree (Icmp.byteAt (p.unBytes (Icmp.Icmp4.innerOf (sizeOfStack r))) 0 * 8) (tailBytes r))
   | _ => False                                                  -- App, Wifi: not covered
 
 def ResidualAll : List AnyObj → Prop
@@ -86,6 +95,64 @@ theorem ip6_parse_version (b : Bytes) (p : Ip6.Ipv6) (i : Inner) (h : Ip6.Ipv6.p
     show ((b.take 40).getD 0 0).toNat / 16 = (b.getD 0 0).toNat / 16
     rw [getD_take_zero b 40 (by omega)]
 
+theorem readU8_lt (c c' : Cursor) (t : Nat) (h : c.readU8 = .ok (t, c')) : t < 256 := by
+  unfold Cursor.readU8 Cursor.readBE at h
+  rcases bind_ok_inv h with ⟨⟨bs, c1⟩, hr, h2⟩
+  injection h2 with h2
+  injection h2 with ht _
+  subst ht
+  have hl : bs.length ≤ 1 := by
+    unfold Cursor.read at hr
+    split at hr
+    · cases hr
+    · split at hr
+      · cases hr
+      · injection hr with hr; injection hr with hb _
+        rw [← hb]; simp only [List.length_take]; omega
+  exact Ip.beNat_lt_of_length bs 1 hl
+
+theorem finishRaw_fst {α} (site : String) (p q : α) (c : Cursor) (i : Inner)
+    (h : Icmp.finishRaw site p c = .ok (q, i)) : q = p := by
+  unfold Icmp.finishRaw at h
+  split at h
+  · rcases bind_ok_inv h with ⟨rest, _, h2⟩
+    injection h2 with h2; injection h2 with h3 _; exact h3.symm
+  · injection h with h; injection h with h3 _; exact h3.symm
+
+/-- type and code of a parsed ICMP message are bytes -/
+theorem icmp_parse_small (b : Bytes) (p : Icmp.Icmp4) (i : Inner) (h : Icmp.Icmp4.parse b = .ok (p, i)) : p.Small := by
+  unfold Icmp.Icmp4.parse at h
+  rcases bind_ok_inv h with ⟨⟨q, c⟩, hh, h2⟩
+  have hq := finishRaw_fst _ _ _ _ _ h2
+  subst hq
+  unfold Icmp.Icmp4.parseHead at hh
+  rcases bind_ok_inv hh with ⟨⟨t, c1⟩, h1, hh⟩
+  rcases bind_ok_inv hh with ⟨⟨code, c2⟩, h2', hh⟩
+  rcases bind_ok_inv hh with ⟨⟨ck, c3⟩, _, hh⟩
+  rcases bind_ok_inv hh with ⟨⟨un, c4⟩, _, hh⟩
+  rcases bind_ok_inv hh with ⟨⟨⟨orig, recv, trans⟩, c5⟩, _, hh⟩
+  rcases bind_ok_inv hh with ⟨⟨ext, c6⟩, _, hh⟩
+  injection hh with hh; injection hh with hq _
+  subst hq
+  exact ⟨readU8_lt _ _ _ h1, readU8_lt _ _ _ h2'⟩
+
+theorem icmp6_parse_small (b : Bytes) (p : Icmp.Icmp6) (i : Inner) (h : Icmp.Icmp6.parse b = .ok (p, i)) : p.Small := by
+  unfold Icmp.Icmp6.parse at h
+  rcases bind_ok_inv h with ⟨⟨q, c⟩, hh, h2⟩
+  have hq := finishRaw_fst _ _ _ _ _ h2
+  subst hq
+  unfold Icmp.Icmp6.parseHead at hh
+  rcases bind_ok_inv hh with ⟨⟨t, c1⟩, h1, hh⟩
+  rcases bind_ok_inv hh with ⟨⟨code, c2⟩, h2', hh⟩
+  rcases bind_ok_inv hh with ⟨⟨ck, c3⟩, _, hh⟩
+  rcases bind_ok_inv hh with ⟨⟨un, c4⟩, _, hh⟩
+  rcases bind_ok_inv hh with ⟨⟨body, c5⟩, _, hh⟩
+  rcases bind_ok_inv hh with ⟨⟨opts, c6⟩, _, hh⟩
+  rcases bind_ok_inv hh with ⟨⟨ext, c7⟩, _, hh⟩
+  injection hh with hh; injection hh with hq _
+  subst hq
+  exact ⟨readU8_lt _ _ _ h1, readU8_lt _ _ _ h2'⟩
+
 /-- **parsing one layer of a covered class establishes everything `LayerOK` asks for, up to `Residual`** -/
 theorem parseOne_firstOK (cls : String) (b : Bytes) (o : AnyObj) (inner : Inner) (hb : b.length < 4294967296)
     (hcov : Coverable o) (hl2 : ∀ z, o = .l2 z → L2.Serializable z) (h : parseOne cls b = .ok (o, inner)) :
@@ -120,8 +187,8 @@ theorem parseOne_firstOK (cls : String) (b : Bytes) (o : AnyObj) (inner : Inner)
     simp only [Icmp.classes, List.mem_cons, List.mem_nil_iff, or_false] at hc
     rcases hc with hc | hc <;> subst hc <;> simp only [Icmp.parse] at hx <;>
       rcases Ip.map_ok hx with ⟨⟨y, j⟩, hy, hr⟩ <;> injection hr with e1 e2 <;> subst e1 <;> subst e2
-    · exact ⟨hgood.1, hser, fun _ hr => hr, icmp_parse_linkA b y j hy, rfl, trivial⟩
-    · exact ⟨hgood.1, hser, fun _ hr => hr, icmp6_parse_linkA b y j hy, rfl, trivial⟩
+    · exact ⟨hgood.1, hser, fun _ hr => ⟨icmp_parse_small b y j hy, hr.1, hr.2⟩, icmp_parse_linkA b y j hy, rfl, trivial⟩
+    · exact ⟨hgood.1, hser, fun _ hr => ⟨icmp6_parse_small b y j hy, hr.1, hr.2⟩, icmp6_parse_linkA b y j hy, rfl, trivial⟩
   · -- Transport
     have hser := Transport.transport_parse_serializable cls b x inner hc hx
     simp only [Transport.classes, List.mem_cons, List.mem_nil_iff, or_false] at hc
